@@ -71,6 +71,33 @@ def main():
         for r in d["records"]:
             recs.add(r["name"])
     m["__records__"] = sorted(recs)
+    # symbols a later tree may rename consistently (engine/symren.py maps them back): functions with their signature and callees,
+    # file-level variables with their type, record fields in declaration order, enumerators with their values
+    funcs, globs, fields, enums = {}, {}, {}, {}
+    for u, d in facts.items():
+        for rf in d["functions"]:
+            cal = set()
+
+            def vis(n, cal=cal):
+                if isinstance(n, dict):
+                    if n.get("k") == "call" and n.get("callee"):
+                        cal.add(n["callee"])
+                    for v in n.values():
+                        vis(v)
+                elif isinstance(n, list):
+                    for v in n:
+                        vis(v)
+            vis(rf["blocks"])
+            funcs.setdefault(rf["name"], []).append({"unit": u, "static": rf["static"], "ret": rf.get("ret_t", ""),
+                                                     "params": [[p["t"], p.get("ct", "")] for p in rf["params"]], "callees": sorted(cal)})
+        for g in d["globals"]:
+            if g.get("is_def") and not g.get("func"):
+                globs.setdefault(g["name"], {"t": g["t"], "file": os.path.relpath(g["file"], "/repo")})
+        for r in d["records"]:
+            fields.setdefault(r["name"], [[f_["name"], f_["t"]] for f_ in r["fields"]])
+        for gname, names in d.get("enum_groups", {}).items():
+            enums.setdefault(gname, [[n_, d["enums"].get(n_)] for n_ in names])
+    m["__funcs__"], m["__globals__"], m["__fields__"], m["__enums__"] = funcs, globs, fields, enums
     with open(os.path.join(VERIF, "engine", "namemap.json"), "w") as fh:
         json.dump(m, fh, indent=0, sort_keys=True)
     print("namemap: %d functions" % sum(len(v) for k, v in m.items() if not k.startswith("__")))
